@@ -30,6 +30,7 @@ func init() {
 			ruleNoSwallowedErrors(r, "F9", 20, true, "/transport/websocket", "/transport/websocket/", "/transport/quic", "/transport/webtransport", "/transport/compress", "/transport")
 			ruleCounterDirection(r, "F10", "/transport/websocket", "/transport/quic", "/transport/webtransport", "/transport")
 			ruleC13F11(r)
+			ruleC13F12(r)
 		},
 	})
 }
@@ -341,6 +342,56 @@ func ruleC13F3(r *Run) {
 			ce, cd := flateClass(p, pr.enc), flateClass(p, pr.dec)
 			classes[ce] = true
 			r.Check(key, ce == cd && ce != "?", p.pos(ctor.Pos()), name, fmt.Sprintf("encode slot is %s, decode slot is %s", ce, cd))
+			// the class agrees with the flags that select the branch: identity iff compression is not enabled,
+			// per-message iff enabled with context takeover disabled, context takeover iff enabled and not disabled
+			flags := map[string]bool{}
+			known := map[string]bool{}
+			allInstrs(ctor, func(x ssa.Instruction) {
+				ifs, isIf := x.(*ssa.If)
+				if !isIf {
+					return
+				}
+				cond, neg := ifs.Cond, false
+				for {
+					if u, isU := cond.(*ssa.UnOp); isU && u.Op == token.NOT {
+						cond, neg = u.X, !neg
+						continue
+					}
+					break
+				}
+				fr := fieldsRead(cond, 4)
+				if len(fr) != 1 {
+					return
+				}
+				var flag string
+				for fk := range fr {
+					flag = fk[strings.LastIndexByte(fk, '.')+1:]
+				}
+				if flag != "Enable" && flag != "DisableContextTakeover" {
+					return
+				}
+				onTrue := edgeDominates(ifs.Block(), ifs.Block().Succs[0], b)
+				onFalse := edgeDominates(ifs.Block(), ifs.Block().Succs[1], b)
+				if onTrue == onFalse {
+					return
+				}
+				known[flag] = true
+				flags[flag] = onTrue != neg
+			})
+			want := map[string]map[string]bool{
+				"identity":         {"Enable": false},
+				"per-message":      {"Enable": true, "DisableContextTakeover": true},
+				"context-takeover": {"Enable": true, "DisableContextTakeover": false},
+			}[ce]
+			okFlags := true
+			for fl, v := range want {
+				if known[fl] && flags[fl] != v {
+					okFlags = false
+				}
+			}
+			if len(known) > 0 {
+				r.Check(key+" selected by the right flags", okFlags, p.pos(ctor.Pos()), name, fmt.Sprintf("the %s pair is installed on the branch where %v; expected %v", ce, flags, want))
+			}
 		}
 		if len(blocks) == 0 {
 			r.Undecided(name+" mode selection", "no assignment of the encode/decode slots found")
@@ -634,4 +685,62 @@ func ruleC13F11(r *Run) {
 	if n == 0 {
 		r.Undecided("library connections", "no call obtains a connection from a package with a default read limit")
 	}
+}
+
+// ruleC13F12: a WebSocket message is finished — and handed to the peer as one message — when its writer is closed.
+// Every path of Transport.Write from the acquisition of the message writer to a return passes the writer's Close; a
+// success return additionally requires that Close reported no error.
+func ruleC13F12(r *Run) {
+	r.Begin("F12", "every message writer is closed: in websocket.Transport.Write no return is reachable from the acquisition of the per-message writer without passing a Close of that writer", 1)
+	p := r.P
+	fn := r.method("/transport/websocket", "Transport", "Write")
+	if fn == nil {
+		return
+	}
+	name := fnName(fn)
+	var acq *ssa.Call
+	allInstrs(fn, func(ins ssa.Instruction) {
+		if c, ok := ins.(*ssa.Call); ok && c.Call.IsInvoke() && c.Call.Method.Name() == "Writer" {
+			acq = c
+		}
+	})
+	if acq == nil {
+		r.Undecided(name+" writer acquisition", "no call of Conn.Writer found")
+		return
+	}
+	isClose := func(x ssa.Instruction) bool {
+		cc := instrCall(x)
+		if cc == nil || !cc.IsInvoke() || cc.Method.Name() != "Close" {
+			return false
+		}
+		for _, l := range p.Leaves(cc.Value, provOpts{}) {
+			if strings.Contains(l, "Conn.Writer") || strings.Contains(l, ".Writer") {
+				return true
+			}
+		}
+		return false
+	}
+	// start after the error test of the acquisition: the nil edge
+	var start *ssa.BasicBlock
+	for _, ev := range errResultsOf(acq) {
+		for _, ifs := range nilTestsOf(fn, ev) {
+			if ne := nilEdge(ifs, ifs.Cond.(*ssa.BinOp).X); ne != nil {
+				start = ne
+			} else if ne := nilEdge(ifs, ifs.Cond.(*ssa.BinOp).Y); ne != nil {
+				start = ne
+			}
+		}
+	}
+	if start == nil {
+		r.Undecided(name+" acquisition error test", "not found")
+		return
+	}
+	w := reachesWithoutFromBlock(start, func(x ssa.Instruction) bool { _, isRet := x.(*ssa.Return); return isRet }, isClose)
+	where := posOf(p, acq)
+	detail := "every path from the acquisition to a return closes the writer"
+	if w != nil {
+		where = posOf(p, w)
+		detail = "the return at " + posOf(p, w) + " is reachable without closing the message writer: the frame is never finished, the peer never sees the message (and the next Writer call blocks or interleaves)"
+	}
+	r.Check(name+" closes its writer", w == nil, where, name, detail)
 }
